@@ -536,7 +536,7 @@ func TestC19(t *testing.T) {
 		}
 	}()
 	// controlled mode: schedule enumeration at the verif points with simulated park/ready
-	for j := 0; j < 9; j++ {
+	for j := 0; j < 10; j++ {
 		j := j
 		wg.Add(1)
 		go func() {
